@@ -378,9 +378,13 @@ loop:
 		case <-waitingForFiles:
 			// the file source asks for a merged file that does not exist (yet): with static files it would poll
 			// forever; this is the "waiting" outcome, not a hang
-			time.Sleep(30 * time.Millisecond)
+			// the reader looks ahead: the miss only means "waiting" if the stream neither ends nor joins the hub
+			select {
+			case runErr = <-done:
+				break loop
+			case <-time.After(250 * time.Millisecond):
+			}
 			if th.fh.VerifSubscribers() > 0 {
-				// the reader looked ahead for the next bundle, but the stream has already joined the live hub
 				continue
 			}
 			cancel()
@@ -517,6 +521,10 @@ func c07Gen(prop string) func(r *Rng, i int, tier string) any {
 		}
 		na := len(in.Arrival)
 		in.A0 = na/4 + r.Intn(na/4)
+		filesOnly := prop == "C13" && r.Chance(30) // the stop block is reached while still reading merged files
+		if filesOnly {
+			in.A0 = na * 3 / 4
+		}
 		hubHeadNum := in.Arrival[in.A0-1].Num
 		// geometry of a real deployment: merged files lag behind the live head, the hub retains more than
 		// that lag, so that files and hub together always cover the chain while the stream reads files
@@ -543,7 +551,11 @@ func c07Gen(prop string) func(r *Rng, i int, tier string) any {
 			in.Mode = "num"
 			in.Start = int64(in.Root.Num) + int64(r.Intn(span+3))
 			if r.Chance(15) {
-				in.Start = -int64(r.Intn(span + 4))
+				if in.First == in.Root.Num {
+					in.Start = -int64(r.Intn(span + 4)) // may resolve below the first streamable block: clamped
+				} else {
+					in.Start = -int64(r.Intn(span + 1)) // never below the first merged file
+				}
 			}
 			if uint64(in.Start) > hubHeadNum && r.Chance(70) {
 				in.Start = int64(hubHeadNum) - int64(r.Intn(5))
@@ -590,6 +602,21 @@ func c07Gen(prop string) func(r *Rng, i int, tier string) any {
 			if lastNum > 8 {
 				in.Stop = lastNum - 6 - uint64(r.Intn(3))
 			}
+		}
+		if filesOnly && in.HubStart > in.Root.Num+in.Bundle+2 {
+			in.Mode = "num"
+			in.Shape = "num/" + in.Filter
+			room := int(in.HubStart - in.Root.Num - 1)
+			in.Start = int64(in.Root.Num) + int64(r.Intn(room/2+1))
+			in.Stop = uint64(in.Start) + uint64(r.Intn(int(in.HubStart-1-uint64(in.Start))+1))
+			if r.Chance(60) {
+				// on a bundle boundary (first block of a bundle), in a later bundle than the start block
+				b := (in.Stop / in.Bundle) * in.Bundle
+				if b > uint64(in.Start) && b < in.HubStart {
+					in.Stop = b
+				}
+			}
+			in.Pauses = nil
 		}
 		if prop == "C13" && r.Chance(8) && in.Mode == "num" && in.Start >= 0 {
 			in.Stop = uint64(in.Start) - uint64(1+r.Intn(3)) // start after stop: invalid argument
